@@ -12,6 +12,9 @@ Round 3: __update_state hands back on every path on which the scan found a
 member.
 Round 4: grid.randomly_bin and its nested factors keep their confirmed
 definitions (bins multiply to N, primes included).
+Round 6: the settings an ensemble pushes into its members are stored on every
+path of their setters (a setting can always be cleared); starting points are
+drawn once.
 NOT decided: that gridpts enumerates the full Cartesian product, that fillpts
 stays in range (it runs an optimiser), step-vs-solve equality, real-call counts.
 """
@@ -20,6 +23,7 @@ import ast
 from ..core import rule
 from ..srcmodel import AnalysisError, walk_no_nested, unparse, norm_stmt
 from ..paths import enumerate_paths
+from ..callgraph import attr_writes
 from .. import terms as T
 from .. import siblings as SB
 from .common import *
@@ -556,3 +560,59 @@ def integer_bin_counts_multiply_to_the_member_count(ctx):
     got, want = SB.agree(outer, ast.unparse(ref_outer) + '\n')
     ctx.stats['terms_compared'] += len(got)
     ctx.check(got == want, 'randomly_bin', 'bins = products of the shuffled factors with stride dim', 'randomly_bin differs from its confirmed behaviour: %s' % SB.diff(got, want)[:500], f, f.node)
+
+
+@rule('C09.j', min_instances=10)
+def a_setting_can_always_be_set_again(ctx):
+    """members are subject to the ensemble's settings AS THEY ARE when the members are built: every configuration method stores the setting(s) it owns on every normally-returning path, so a later call - including one that clears the setting (SetDistribution(None), SetPenalty(None)) - always replaces what an earlier call left (an early `if not dist: return` keeps the old distribution and lattice members start at perturbed points instead of their cell centres). Table of owners shared with C07.a; the documented "unchanged" early returns of SetObjective are the only exemption"""
+    from .c07 import WRITE_TABLE, _impls
+    EXEMPT = {('SetObjective', '_cost'): 'returns early when cost and ExtraArgs are unchanged (C01.l decides that test)',
+              ('SetObjective', '_live'): 'same early return'}
+    n = 0
+    # the settings an ensemble pushes into its members (__get_solver_instance) and its own two; the monitor setters (foreign monitor kinds fall
+    # through unstored) and SetStrictRanges(False) (switches the ranges off, keeps the numbers) have documented non-storing paths
+    PUSHED = ('SetNestedSolver', 'SetDistribution', 'SetPenalty', 'SetConstraints', 'SetReducer', 'SetTermination', 'SetEvaluationLimits', 'SetSaveFrequency')
+    for name, owned in sorted(WRITE_TABLE.items()):
+        if name not in PUSHED:
+            continue
+        for k, m in _impls(ctx, name):
+            sn = selfname_of(m)
+            written = set(a for a, kind, node in attr_writes(m.node, sn) if kind == 'bind')
+            # delegating overrides (super().SetX(...)) store through the base implementation
+            if calls_where(m.node, lambda c: isinstance(c.func, ast.Attribute) and c.func.attr == name, include_lambda=False):
+                continue
+            for a in sorted(owned & written):
+                if (name, a) in EXEMPT:
+                    continue
+
+                def rel(nn, a=a):
+                    return isinstance(nn, ast.Attribute) and nn.attr == a and isinstance(nn.ctx, ast.Store)
+                paths = [p for p in enumerate_paths(m.node, relevant=rel, unroll=(0, 1)) if p.exit != 'raise']
+                ctx.stats['paths_enumerated'] += len(paths)
+                bad = None
+                for p in paths:
+                    stored = False
+                    for e in p.events:
+                        if e[0] in ('stmt', 'partial') and any(a2 == a and kind == 'bind' for a2, kind, node in attr_writes(ast.Module(body=[e[1]], type_ignores=[]), sn)):
+                            stored = True
+                    if not stored:
+                        bad = p
+                        break
+                n += 1
+                ctx.touch(m)
+                ctx.check(bad is None, '%s.%s[%s]' % (k.name, name, a), 'stored on every normally-returning path',
+                          '%s.%s can return without storing %s (path %s): a call that should replace or clear the setting leaves the earlier one in force'
+                          % (k.name, name, a, bad.describe(5) if bad else ''), m, bad.exit_node if bad is not None and bad.exit_node is not None else m.node)
+    ctx.need(n >= 10, 'expected >= 10 (configuration method, setting) pairs, found %d' % n)
+
+
+@rule('C09.k', min_instances=1)
+def starting_points_are_drawn_once(ctx):
+    """an ensemble draws its members' starting points (_InitialPoints) only while it is new, and it is new exactly as long as it has no member solvers: _is_new() == not any(self._allSolvers). Judged by the members' progress instead (members are still at generation 0 after the first Step) the second Step draws NEW starting points and overwrites population[0] of members whose stored energies belong to the old points"""
+    f = ctx.func('mystic.abstract_ensemble_solver:AbstractEnsembleSolver._is_new')
+    got, want = SB.agree(f.node, 'def _is_new(self):\n    return not any(self._allSolvers)\n')
+    ctx.stats['terms_compared'] += len(got)
+    ctx.check(got == want, 'AbstractEnsembleSolver._is_new', 'new <=> no member solvers exist', '_is_new differs from `not any(self._allSolvers)`: %s' % SB.diff(got, want)[:300], f, f.node)
+    uses = [c for q, fi in sorted(ctx.model.modules['mystic.abstract_ensemble_solver'].funcs.items()) for c in ast.walk(fi.node)
+            if isinstance(c, ast.If) and '_is_new()' in unparse(c.test) and '_InitialPoints' in unparse(c)]
+    ctx.need(len(uses) >= 2, 'expected the two `if self._is_new(): iv = self._InitialPoints()` sites (_Step / _Solve), found %d' % len(uses))
